@@ -40,7 +40,11 @@ class Model:
         raise Unsupported(f'len({type(self).__name__})')
 
     def m_eq(self, it, other):
-        return self is other
+        if self is other:
+            return True
+        # two distinct abstract objects: whether they are equal as program values is not encoded in general -
+        # answering False would make comparisons hold / fail vacuously
+        raise Unsupported(f'== between {type(self).__name__} and {type(other).__name__} is not encoded')
 
 
 class StarTail:
@@ -1296,6 +1300,17 @@ class Interp:
             return False
         return z3.And(a, b)
 
+    def or_(self, a, b):
+        a = self.as_bool_term(a)
+        b = self.as_bool_term(b)
+        if a is False:
+            return b
+        if b is False:
+            return a
+        if a is True or b is True:
+            return True
+        return z3.Or(a, b)
+
     def try_ite(self, c, a, b):
         """merge two scalar values under condition c (z3 Bool); NOTFOUND if not mergeable."""
         if a is b:
@@ -1345,6 +1360,8 @@ class Interp:
             o = b if isinstance(a, Sym) else a
             if isinstance(o, Sym) and o.sort == s.sort:
                 return _simp(s.t == o.t)
+            if isinstance(o, Model):
+                return o.m_eq(self, s)
             if s.is_label():
                 if isinstance(o, (str, Sym)):
                     try:
@@ -1388,6 +1405,17 @@ class Interp:
                         if isinstance(r, Opaque) and r.name == 'NotImplemented':
                             continue
                         return self.truth(r)
+            if (isinstance(a, Obj) and isinstance(b, Obj) and a.cls is b.cls and a.cls.dataclass is not None
+                    and getattr(a.cls, 'dataclass_eq', True)):
+                # dataclass-generated __eq__: field-wise comparison
+                r = True
+                for k in a.fields:
+                    if k not in b.fields:
+                        return False
+                    r = self.and_(r, self.eq(a.fields[k], b.fields[k]))
+                    if r is False:
+                        return False
+                return r
             return False
         if isinstance(a, (tuple, VList)) and isinstance(b, (tuple, VList)) and type(a) is type(b):
             xs = a if isinstance(a, tuple) else a.items
@@ -1411,9 +1439,30 @@ class Interp:
             return a.m_eq(self, b)
         if isinstance(b, Model):
             return b.m_eq(self, a)
+        if isinstance(a, VSet) and isinstance(b, VSet):
+            # set equality = mutual inclusion (the item lists may hold terms that are equal on some paths)
+            def member(x, ys):
+                r = False
+                for y in ys:
+                    r = self.or_(r, self.eq(x, y))
+                    if r is True:
+                        return True
+                return r
+            r = True
+            for x in a.items:
+                r = self.and_(r, member(x, b.items))
+                if r is False:
+                    return False
+            for y in b.items:
+                r = self.and_(r, member(y, a.items))
+                if r is False:
+                    return False
+            return r
         if isinstance(a, (VList, VDict, VSet, tuple)) or isinstance(b, (VList, VDict, VSet, tuple)):
-            return False
+            return False                  # containers of different kinds are never equal
         if isinstance(a, (int, str, float, bool, type(None))) and isinstance(b, (int, str, float, bool, type(None))):
+            return a == b
+        if isinstance(a, (bytes, bytearray)) and isinstance(b, (bytes, bytearray)):
             return a == b
         if isinstance(a, EnumMember) or isinstance(b, EnumMember):
             return a is b
@@ -1421,7 +1470,11 @@ class Interp:
             return a is b
         if isinstance(a, BoundMethod) and isinstance(b, BoundMethod):
             return a == b
-        return False
+        if type(a) is not type(b):
+            return False
+        # same kind of value, but no encoding of its equality: refusing is the only sound answer (a default `False` once made
+        # every "equal signatures imply ..." obligation hold vacuously, seed C03-e)
+        raise Unsupported(f'== between two {type(a).__name__} values is not encoded')
 
     def compare(self, op, a, b):
         T = type(op)
@@ -1500,6 +1553,8 @@ class Interp:
     def dict_has(self, d, k):
         if _concrete_key(k):
             return k in d.d
+        if isinstance(k, Obj) and k in d.d:       # the very same object is a key (== is reflexive)
+            return True
         terms = []
         for kk in d.d:
             e = self.eq(k, kk)
@@ -1514,6 +1569,8 @@ class Interp:
             if k in d.d:
                 return d.d[k]
             return on_missing()
+        if isinstance(k, Obj) and k in d.d:       # the very same object is a key (== is reflexive)
+            return d.d[k]
         keys = list(d.d)
         conds = [self.eq(k, kk) for kk in keys]
         vals = [d.d[kk] for kk in keys]
@@ -1615,6 +1672,9 @@ class Interp:
         if getattr(c, 'born', 1) == 0:
             self.static_write(c, 'item assignment')
         if isinstance(c, VDict):
+            if isinstance(k, Obj) and k in c.d:
+                c.d[k] = v
+                return
             if not _concrete_key(k):
                 # symbolic key: overwrite if equal to an existing key on this path, else unsupported insert
                 for kk in list(c.d):
@@ -1986,8 +2046,14 @@ def _bt(v):
 
 
 def _concrete_key(k):
+    """True if python's own hashing / equality of the interpreter value `k` coincides with that of the program value it stands
+    for (so that it may be looked up in the backing python dict); everything else goes through eq()-chains"""
     if isinstance(k, Sym):
         return False
     if isinstance(k, tuple):
         return all(_concrete_key(x) for x in k)
+    if isinstance(k, (VSet, VList, VDict)):
+        return False                      # frozenset keys: identity hashing of the VSet object would never find an equal set
+    if isinstance(k, Obj) and (k.cls.lookup('__eq__') is not NOTFOUND or (k.cls.dataclass is not None and getattr(k.cls, 'dataclass_eq', True))):
+        return False
     return True
